@@ -50,7 +50,10 @@ try:
 finally:
     subprocess.run(["git", "-C", WT, "checkout", "--", "."], check=True)
     # bring evidence/ and Generated/*.lean back to what they were (in sync with /repo)
+    earley_props = {"C04", "C05", "C06", "C13"}
     for f in saved:
+        if f.endswith("Generated/Earley.lean") and not (set(props) & earley_props):
+            continue        # not written by these checks; another session may be regenerating it right now
         if open(f, "rb").read() != open(SAVE + f, "rb").read():
             shutil.copy2(SAVE + f, f)
     shutil.rmtree(SAVE, ignore_errors=True)
